@@ -252,6 +252,23 @@ def run(ctx):
                    "(server Shadowsocks: whenever no target address has been parsed, i.e. always for the three legacy ciphers)")
     ctx.floor("W4", "inner decode call sites in stream codecs", 3, n)
     w5(ctx)
+    w6(ctx)
+
+
+def w6(ctx):
+    """W6: "the application receives the complete answer followed by end-of-stream" also when the target's connection ends with a reset
+    right behind the answer (it closed with unread request bytes): C15's D6 re-evaluated for the relay pumps"""
+    from ..engine import Ctx
+    from . import c15
+    sub = Ctx(ctx.prog, "C15", ctx.tier)
+    c15.run(sub)
+    n = 0
+    for o in sub.obs:
+        if o.rule == "D6":
+            n += 1
+            parts = o.key.split("|")
+            ctx.ob("W6", parts[1], parts[2], o.where, o.ok, o.detail)
+    ctx.floor("W6", "forward pumps", 4, n)
 
 
 def w5(ctx):
